@@ -107,7 +107,7 @@ func cmdCheck(args []string) int {
 	fs.IntVar(&o.seed, "seed", 0, "seed")
 	fs.BoolVar(&o.keep, "keep", false, "keep query files")
 	fs.BoolVar(&o.verbose, "v", false, "verbose")
-	fs.BoolVar(&o.fast, "fast", false, "development: one 3 s attempt per obligation, no retry, no replay (never used by registered commands)")
+	fs.BoolVar(&o.fast, "fast", false, "development: one 8 s attempt (three seeds raced) per obligation, no retry, no replay (never used by registered commands)")
 	fs.BoolVar(&o.nosolve, "nosolve", false, "generate the verification conditions and print notes only")
 	fs.IntVar(&o.stab, "stab", 0, "stability test: additionally run every obligation with this many z3 random seeds (report only)")
 	fs.Parse(args)
@@ -362,7 +362,7 @@ func runProperty(w *World, o *checkOpts) *Report {
 		quick, full = 5, 60
 	}
 	if o.fast {
-		quick, full = 3, 1
+		quick, full = 8, 1
 	}
 	var wg sync.WaitGroup
 	sem := make(chan struct{}, 16)
